@@ -185,6 +185,41 @@ def buildAux (inner : List (Loop α)) (outerNormal : V3 α) (minExtVertexId minI
       else Res.ok aux
     buildAux inner outerNormal minExtVertexId minInnerLoopId innerVertexId rest (i + 1) aux
 
+/-- `Point3D == Point3D` (derived `PartialEq`: component-wise float equality) -/
+def ptEq (a b : V3 α) : Bool := Num.beq a.x b.x && Num.beq a.y b.y && Num.beq a.z b.z
+
+/-- the `for j in 0..n_ext_vertices` loop that picks the copy of the bridge vertex whose corner contains the bridge
+    (with its `break`); returns the (possibly updated) `min_ext_vertex_id` -/
+def chooseCopyLoop (ret : Loop α) (nExt : Nat) (extVertex bridge outerNormal : V3 α) : Nat → Nat → Nat → Res Nat
+  | 0, _, cur => .ok cur
+  | fuel + 1, j, cur => do
+    let rj ← ret.index j
+    if !(ptEq rj extVertex) then chooseCopyLoop ret nExt extVertex bridge outerNormal fuel (j + 1) cur else
+    if nExt == 0 then .panic "polygon3d.rs:get_closed_loop:copy-rem-by-zero" else do
+    let prev ← ret.index ((j + nExt - 1) % nExt)
+    let next ← ret.index ((j + 1) % nExt)
+    let into := extVertex - prev
+    let out := next - extVertex
+    let leftOfInto := (into.cross bridge).dot outerNormal
+    let leftOfOut := (out.cross bridge).dot outerNormal
+    let inCorner :=
+      if (into.cross out).dot outerNormal >=. (0 : α) then leftOfInto >. (0 : α) && leftOfOut >. (0 : α)
+      else !(leftOfInto <=. (0 : α) && leftOfOut <=. (0 : α))
+    if inCorner then .ok j
+    else chooseCopyLoop ret nExt extVertex bridge outerNormal fuel (j + 1) cur
+
+/-- `if min_distance < 9E14 { … }`: choose the copy of the bridge vertex -/
+def chooseCopy (pg : Polygon α) (ret : Loop α) (outerNormal : V3 α) (s : MinSearch α) : Res Nat :=
+  if s.minDistance <. (9E14 : α) then do
+    let extVertex ← ret.index s.minExtVertexId
+    let innerLoop ← match pg.inner[s.minInnerLoopId]? with
+      | some l => Res.ok l
+      | none => Res.panic "polygon3d.rs:get_closed_loop:copy-inner-index"
+    let innerVertex ← innerLoop.index s.innerVertexId
+    let bridge := innerVertex - extVertex
+    chooseCopyLoop ret ret.len extVertex bridge outerNormal ret.len 0 s.minExtVertexId
+  else .ok s.minExtVertexId
+
 /-- the variables that live across iterations of `for _i in 0..n_inner_loops` -/
 structure ClosedLoopState (α : Type) where
   retLoop : Loop α
@@ -201,7 +236,11 @@ def closedLoopIter (pg : Polygon α) (outerNormal : V3 α) : Nat → ClosedLoopS
       { minDistance := (9E14 : α), minInnerLoopId := 0, minExtVertexId := 0,
         innerLoopId := st.innerLoopId, innerVertexId := st.innerVertexId }
     let s := searchExtVertices pg.inner st.processed st.retLoop.vertices 0 s0
-    match buildAux pg.inner outerNormal s.minExtVertexId s.minInnerLoopId s.innerVertexId
+    match chooseCopy pg st.retLoop outerNormal s with
+    | .err e => .err e
+    | .panic p => .panic p
+    | .ok minExt =>
+    match buildAux pg.inner outerNormal minExt s.minInnerLoopId s.innerVertexId
         st.retLoop.vertices 0 Loop.new with
     | .err e => .err e
     | .panic p => .panic p
